@@ -168,6 +168,8 @@ def dropped_tokens(text, node):
             continue
         if tok in ("{", "}") and "struct" in want and not getattr(node, "members", None):
             continue
+        if tok == "," and "enum" in want and n - have.get(tok, 0) == 1 and ", }" in " ".join(itoks):
+            continue  # a trailing comma in an enumerator list is part of the grammar (C99, C++11)
         d = n - have.get(tok, 0)
         if d > 0:
             missing.extend([tok] * d)
@@ -281,6 +283,11 @@ def generic_shard(args):
     return cnt, stats, bad
 
 
+OTHER_STATEMENTS = ["template<typename T> void f(T a)", "template<typename T, typename U> T g(U a, T * b)", "template<typename T> class Tc",
+                    "class Cnew", "class Cnew : public Cls", "namespace ns2", "enum Color { RED, BLUE = 2 }", "enum class Mode { ON, OFF }",
+                    "struct St { int i; double d; }", "typedef int Index", "void g(std::vector<int> &v)", "const std::string &h(ns::Cls2 *p)"]
+
+
 def mutation_shard(args):
     level, shard, nshards = args
     from shroud import typemap
@@ -326,6 +333,30 @@ def mutation_shard(args):
             seen.add(h)
             cnt += 1
             parse_one(t, lib, stats, bad)
+    # the statement forms the declaration generator does not produce: templates, classes, namespaces, enumerations, structs, typedefs
+    if shard == 0:
+        for text in OTHER_STATEMENTS:
+            o = parse_one(text, lib, vstats, bad)
+            if o == "diagnostic":
+                _add(bad, 40, "valid-rejected", text, "documented declaration rejected: %r" % text)
+            toks = tokens_of(text)
+            muts = []
+            for i in range(len(toks)):
+                muts.append(toks[:i] + toks[i + 1:])
+                for s_ in subst:
+                    if s_ != toks[i]:
+                        muts.append(toks[:i] + [s_] + toks[i + 1:])
+            for i in range(len(toks) + 1):
+                for s_ in subst:
+                    muts.append(toks[:i] + [s_] + toks[i:])
+            for m in muts:
+                t = " ".join(m)
+                h = hash(t)
+                if h in seen:
+                    continue
+                seen.add(h)
+                cnt += 1
+                parse_one(t, lib, stats, bad)
     return cnt, stats, bad, vstats
 
 
